@@ -168,6 +168,17 @@ def run(ctx, mode):
             ctx.cov["traces_validated_against_impl"] += 1
         elif v.startswith("MONFAIL"):
             key = None
+            if mode == "C16" and solver == "bmf":
+                # the BMF fairness predicate of the model uses consumption_weight where bmf.cpp uses max_consumption_weight and
+                # its own saturation test: not trusted enough to raise an alarm; counted and listed in the evidence only
+                ctx.cov["bmf_fairness_monitor_failures"] = ctx.cov.get("bmf_fairness_monitor_failures", 0) + 1
+                continue
+            if solver == "bmf" and "over capacity []" in v and "values [" in v:
+                vals = v.split("values [")[1].split("]")[0].replace(",", " ").split()
+                if vals and all(not x.startswith("-") and not x.startswith("0/") for x in vals):
+                    key = "bmf-variable-bound-exceeded"
+            if solver == "bmf" and "over capacity [" in v and "over capacity []" not in v:
+                key = "bmf-capacity-exceeded"
             if solver == "fairbottleneck" and "over capacity" in v:
                 fat = fatpipe_overloaded(q)
                 bad = [int(x) for x in v.split("over capacity [")[1].split("]")[0].replace(",", " ").split()]
